@@ -45,6 +45,8 @@ class HIM(Harness):
             user["random_seed"] = 7
         if p.get("noise_size") is not None:
             user["noise_size"] = p["noise_size"]          # a user-supplied noise size with a target BADS finds deterministic
+        user_extra = dict(p.get("user_extra") or {})     # further options a user supplies explicitly
+        user.update(user_extra)
         opts = cached_options(D, user)
         rng = RngStub(eng)
         eng.rng = rng
@@ -138,6 +140,9 @@ class HIM(Harness):
             out.ob("reseeded_before_first_draw", bool(rng.draws) and rng.draws[0] == ("seed", 7) and self_.optim_state["random_seed"] == 7)
             out.ob("reseeded_before_first_target_call", [d[0] for d in rng.draws if d[0] in ("seed", "target_call")][:1] == ["seed"])
         out.ob("func_count_is_number_of_target_calls", fl.func_count == len(calls))
+        if user_extra:
+            # C20: an option supplied by the user keeps exactly the supplied value
+            out.ob("user_options_keep_their_values", all(opts[k] == v for k, v in user_extra.items()))
         # the GP training schedule (_get_gp_training_options) reads the size of the initial design from the state
         out.ob("initial_design_size_recorded", self_.optim_state.get("eff_starting_points") == fl.Xn + 1)
         # -- noise test ----------------------------------------------------------------------------------
